@@ -96,11 +96,9 @@ theorem life_dataCmd (q : Quirks) (now : Nat) (c cid : Conn) (s : State) (cmd : 
     ((dataCmd q now c cid s cmd).conns c').gone = (s.conns c').gone ∧
     ((dataCmd q now c cid s cmd).conns c').peerClosed = (s.conns c').peerClosed := by
   unfold dataCmd
-  split
-  · exact life_dataCore q now c cid s cmd c'
-  · obtain ⟨h1, h2⟩ := life_drain q (dataCore q now c cid s cmd) c'
-    obtain ⟨g1, g2⟩ := life_dataCore q now c cid s cmd c'
-    exact ⟨h1.trans g1, h2.trans g2⟩
+  obtain ⟨h1, h2⟩ := life_drain q (dataCore q now c cid s cmd) c'
+  obtain ⟨g1, g2⟩ := life_dataCore q now c cid s cmd c'
+  exact ⟨h1.trans g1, h2.trans g2⟩
 
 theorem life_serveKey (q : Quirks) (k : Key) (c' : Conn) : ∀ n s,
     ((serveKey q k n s).conns c').gone = (s.conns c').gone ∧ ((serveKey q k n s).conns c').peerClosed = (s.conns c').peerClosed := by
@@ -111,10 +109,15 @@ theorem life_serveKey (q : Quirks) (k : Key) (c' : Conn) : ∀ n s,
     intro s
     simp only [serveKey]
     split
-    · obtain ⟨h1, h2⟩ := ih (wakeOne q (notify k s))
-      obtain ⟨g1, g2⟩ := life_wakeOne q (notify k s) c'
-      rw [notify_conns] at g1 g2
-      exact ⟨h1.trans g1, h2.trans g2⟩
+    · split
+      · obtain ⟨h1, h2⟩ := ih (iter (wakeOne q) ((notify k s).wakeQ.length + (notify k s).registry.length) (notify k s))
+        obtain ⟨g1, g2⟩ := life_iter (life_wakeOne q · c') ((notify k s).wakeQ.length + (notify k s).registry.length) (notify k s)
+        rw [notify_conns] at g1 g2
+        exact ⟨h1.trans g1, h2.trans g2⟩
+      · obtain ⟨h1, h2⟩ := ih (wakeOne q (notify k s))
+        obtain ⟨g1, g2⟩ := life_wakeOne q (notify k s) c'
+        rw [notify_conns] at g1 g2
+        exact ⟨h1.trans g1, h2.trans g2⟩
     · exact ⟨rfl, rfl⟩
 
 theorem life_serveKeys (q : Quirks) (c' : Conn) (ks : List Key) : ∀ s,
@@ -323,7 +326,10 @@ theorem Inv_wakeOne (q : Quirks) (s : State) (hI : Inv s) : Inv (wakeOne q s) :=
     have htgt : wakeTargetOk { s with wakeQ := rest } w = true := by
       have hl : isBlockedLive { s with wakeQ := rest } w.conn = true := isBlockedLive_of (s := { s with wakeQ := rest }) h0 hg hb
       simp [wakeTargetOk, hl, hb]
-    simp only [htgt, hpc, Bool.true_eq_false, Bool.false_eq_true, and_false, if_false]
+    have hps : probeSees q { s with wakeQ := rest } w.conn = false := by
+      show ((s.conns w.conn).peerClosed && _) = false
+      rw [hpc]; rfl
+    simp only [htgt, hps, Bool.true_eq_false, Bool.false_eq_true, and_false, if_false]
     split
     · next hpe =>
       exfalso
@@ -484,7 +490,6 @@ theorem Inv_dataCmd (q : Quirks) (hx : q.execAtomic = false) (now : Nat) (c cid 
     (hI : Inv s) (ho : Open s c) (hcid : cid = c ∨ cid = 0) (hok : dataOk s cid cmd = true) :
     Inv (dataCmd q now c cid s cmd) := by
   unfold dataCmd
-  simp only [hx, Bool.false_eq_true, false_and, if_false]
   exact Inv_drain q _ (Inv_dataCore q hx now c cid s cmd hI ho hcid hok)
 
 theorem Inv_foldl_dataCmd (q : Quirks) (hx : q.execAtomic = false) (now : Nat) (c cid : Conn) (hcid : cid = c ∨ cid = 0) (cmds : List Cmd) :
